@@ -32,15 +32,31 @@ func (a *Num) Cmp(b *Num) int {
 }
 
 func (c *OpContext) Add(a, b *Num) Value {
+	if exactIntOp(a, b) {
+		return numOp(c, apd.BaseContext.Add, a, b)
+	}
 	return numOp(c, internal.BaseContext.Add, a, b)
 }
 
 func (c *OpContext) Sub(a, b *Num) Value {
+	if exactIntOp(a, b) {
+		return numOp(c, apd.BaseContext.Sub, a, b)
+	}
 	return numOp(c, internal.BaseContext.Sub, a, b)
 }
 
 func (c *OpContext) Mul(a, b *Num) Value {
+	if exactIntOp(a, b) {
+		return numOp(c, apd.BaseContext.Mul, a, b)
+	}
 	return numOp(c, internal.BaseContext.Mul, a, b)
+}
+
+// exactIntOp reports whether an operation on a and b is integer arithmetic,
+// which is arbitrary precision and so must not be rounded to the precision
+// of internal.BaseContext. apd.BaseContext has unlimited precision.
+func exactIntOp(a, b *Num) bool {
+	return a.K == IntKind && b.K == IntKind
 }
 
 func (c *OpContext) Quo(a, b *Num) Value {
